@@ -2392,9 +2392,30 @@ get_identifier(int c, bool no_expand) {
     // the next token is an open-parenthesis.
     CPPManifest *manifest = (*mi).second;
     if (manifest->_has_parameters) {
-      while (c != EOF && isspace(c)) {
-        get();
-        c = peek();
+      // White space, which includes comments, may separate the name from the
+      // parenthesis.
+      while (c != EOF) {
+        if (isspace(c)) {
+          get();
+          c = peek();
+        }
+        else if (c == '/') {
+          get();
+          int next_c = peek();
+          if (next_c != '*' && next_c != '/') {
+            // Just a slash.  Put it back.
+            unget('/');
+            break;
+          }
+          int after = skip_comment('/');
+          if (after != EOF) {
+            unget(after);
+          }
+          c = peek();
+        }
+        else {
+          break;
+        }
       }
       if (c == '(') {
         // It is followed by a parenthesis, so we can expand this.
